@@ -115,6 +115,13 @@ func updateStump(e *emitter, st u.Stump, label string, dels, adds []u.Hash, targ
 	})
 }
 
+func max0(x int) int {
+	if x < 0 {
+		return 0
+	}
+	return x
+}
+
 type alpha struct {
 	hashes []u.Hash
 	pos    []uint64
@@ -139,6 +146,13 @@ func alphabet(rf *refForest) alpha {
 	a.hashes = append(a.hashes, empty, u.Hash{0xfe, 0xed})
 	for p := uint64(0); p <= uint64(2)<<uint(rows)+1; p++ {
 		a.pos = append(a.pos, p)
+	}
+	// positions written in the coordinates of a forest allocated with 63 rows (map forests accept them):
+	// every row >= 1, offsets up to one past the width of the row in the minimal geometry
+	for r := 1; r <= rows+1; r++ {
+		for o := uint64(0); o <= (uint64(1)<<uint(max0(rows-r)))+1; o++ {
+			a.pos = append(a.pos, refPos(r, 63, o))
+		}
 	}
 	return a
 }
